@@ -5,7 +5,9 @@
      stage/expand.go     addSingleFile as far as it decides membership, type and link target
    over an abstract build root (a list of paths with their kind).  path/filepath.Glob and
    filepath.Match are modelled (not verified) for patterns whose only metacharacters are
-   "*" and "\c"; everything else sets the out-of-domain flag.  src= is not modelled here.
+   "*" and "\c"; everything else sets the out-of-domain flag.  Of src= only the WILDCARD form below
+   the build root ("$$stageroot/<dir>/<pattern>", round 6: add_src_wild) is modelled here; any other
+   src= line sets the out-of-domain flag.
    Executable definitions only. *)
 From LC Require Import Lib.Bytes Lib.Lex Lib.Fields Lib.PathM Gen.Consts Model.StageLine.
 Open Scope N_scope.
@@ -247,9 +249,62 @@ Fixpoint add_each (t : tree) (l : flist) (e : entry) (names : list bytes) : ares
     end
   end.
 
+(* ---- round 6: a WILDCARD src= below the build root ("$$stageroot/<dir>/<pattern>") ----
+   resolveSourceLocation: sigil "$$", prefix name stageroot, the tail from the first slash on is
+   joined to the root; so the tail is a name inside the build root and Glob runs on this tree. *)
+Definition stageroot_pfx : bytes := [nb 36; nb 36] ++ D_TreeRootDirPrefixName ++ [c_slash].
+Definition stageroot_tail (src : bytes) : option bytes :=
+  if prefixb stageroot_pfx src then Some (skipn (length stageroot_pfx - 1) src) else None.
+
+(* addSingleFile with a source that is not the name and type "to be determined" (what
+   addFromWildcard hands over): lstat of the SOURCE decides type and link target, the member
+   is entered under [name] *)
+Definition add_from_source (t : tree) (l : flist) (e : entry) (name src : bytes) : ares :=
+  match lstat t src with
+  | LOod => AOod
+  | LNotDir => AErr
+  | LAbsent => if e_skip e then AOk l else AErr
+  | LFound te =>
+    let actual := te_kind te in
+    AOk (fl_set l (MkL name actual
+                       (if actual =? V_FileType_symlink then match e_target e with [] => te_link te | x => x end
+                        else e_target e)))
+  end.
+
+(* addFromWildcard, useSource: every match m is entered as path.Join(name, m[choplen:]) with
+   choplen = len(path.Dir(globname)): its path RELATIVE to the globbed source directory *)
+Fixpoint add_each_src (t : tree) (l : flist) (e : entry) (chop : nat) (ms : list bytes) : ares :=
+  match ms with
+  | [] => AOk l
+  | m :: r =>
+    match add_from_source t l e (clean (e_name e ++ c_slash :: skipn chop m)) m with
+    | AOk l' => add_each_src t l' e chop r
+    | x => x
+    end
+  end.
+
+Definition add_src_wild (t : tree) (l : flist) (e : entry) : ares :=
+  match stageroot_tail (e_source e) with
+  | None => AOod                 (* absolute / relative / ~ sources: not modelled at this level *)
+  | Some tail =>
+    let dpart := fst (pathsplit (clean tail)) in
+    if existsb (fun c => Ascii.eqb c c_bsl) dpart then AOod   (* escapes in the directory part *)
+    else
+      match glob t tail with
+      | GErr => AErr
+      | GOut => AOod
+      | GOk ms =>
+        let ms' := if e_ltype e =? V_FileType_dir then expand t ms else ms in
+        let d := clean dpart in
+        let chop := if beq d [c_slash] then O else length d in
+        match ms' with [] => AErr | _ => add_each_src t l e chop ms' end
+      end
+  end.
+
 Definition add_files (t : tree) (l : flist) (e : entry) : ares :=
   match e_source e with
-  | _ :: _ => AOod                                   (* src= : not modelled at this level *)
+  | _ :: _ => if e_wild e then add_src_wild t l e
+              else AOod                              (* src= without wildcard: not modelled at this level *)
   | [] =>
     if e_wild e then
       match glob t (e_name e) with
